@@ -160,4 +160,7 @@ MUTANTS = [
     ("make-array-cache-too-coarse", ["C12"], A, "    out = _make_array_cached(x, dim_str, dtype.dtypes, dtype.__name__)", "    out = _make_array_cached(x, dim_str, dtype.dtypes if dim_str != 'q' else ('int32',), dtype.__name__)"),
     ("hook-exit-skipped-on-exception", ["C12"], I, "    def __exit__(self, exc_type, exc_val, exc_tb):\n        self.uninstall()", "    def __exit__(self, exc_type, exc_val, exc_tb):\n        if exc_type is None:\n            self.uninstall()"),
     # (name-format-leaks-into-check: replaced by seeded changes C12-m1 / C08-m1)
+    ("shape-storage-global", ["C06"], S, "_shape_storage = threading.local()", "class _G: pass\n_shape_storage = _G()"),
+    ("treepath-storage-global", ["C06"], S, "_treepath_storage = threading.local()", "class _G2: pass\n_treepath_storage = _G2()"),
+    ("treeflatten-storage-global", ["C06"], S, "_treeflatten_storage = threading.local()", "class _G3: pass\n_treeflatten_storage = _G3()"),
 ]
